@@ -37,7 +37,8 @@ FINDINGS = {
     "K11": {"props": ["C16"],
             "what": "a pointer inside a fixed-size union keeps the union's private byte buffer as its stream: dereferencing "
                     "reads relative to the union's start instead of the absolute stream offset"},
-    "K12": {"props": ["C07"],
+    "K12": {"props": [],      # repaired (repair 90); kept for the record
+
             "what": "an array length cannot refer to a field of a preceding anonymous structure member "
                     "(struct { struct { uint8 n; }; uint8 d[n]; }: ExpressionParserError 'Unmatched token' at parse time, "
                     "although the field is a field of the structure)"},
